@@ -141,6 +141,12 @@ pub fn single_mutants(j: &Value) -> Vec<(String, Value)> {
                 }
             }
             Some(Value::Array(a)) if !a.is_empty() && a[0].is_object() => {
+                // the member present but EMPTY (`"71F": []`): a repeatable field that is "there" with no occurrence
+                {
+                    let mut m = j.clone();
+                    *at(&mut m, p).unwrap() = json!([]);
+                    out.push((format!("empty-array {}", p.join("/")), m));
+                }
                 for target in [11usize, 10, 2] {
                     let mut m = j.clone();
                     if let Some(Value::Array(arr)) = at(&mut m, p) {
@@ -229,6 +235,18 @@ pub fn single_mutants(j: &Value) -> Vec<(String, Value)> {
                         mm.retain(|k, _| !(k.starts_with(a.as_str()) || k.starts_with(b.as_str())));
                     }
                     out.push((format!("remove-all {}/{a}*+{b}*", o.join("/")), m));
+                    // … and one more member of the same object gone (a rule about the fields that remain, in a sequence that
+                    // has lost its customer parties: "56a needs 57a" in a sequence B without 50a / 59a)
+                    if a != b && (o.len() == 1 || o.last().map(|k| k == "#" || k == "0").unwrap_or(false)) {
+                        for k in map.keys() {
+                            if k.starts_with(a.as_str()) || k.starts_with(b.as_str()) { continue; }
+                            let mut m = j.clone();
+                            if let Some(Value::Object(mm)) = at(&mut m, o) {
+                                mm.retain(|kk, _| !(kk.starts_with(a.as_str()) || kk.starts_with(b.as_str()) || kk == k));
+                            }
+                            out.push((format!("remove-all {}/{a}*+{b}*+{k}", o.join("/")), m));
+                        }
+                    }
                 }
             }
         }
@@ -448,6 +466,7 @@ pub fn absent_member_mutants(code: u32, j: &Value, sh: &Shapes) -> Vec<(String, 
                 if let (Some(c), Value::Object(o)) = (first_currency(root), &mut v) { if o.contains_key("currency") { o.insert("currency".into(), json!(c)); } }
                 let mut variants: Vec<(String, Value)> = Vec::new();
                 if kind == "vec" || kind == "optVec" {
+                    variants.push(("x0".into(), json!([])));
                     variants.push(("x1".into(), json!([v.clone()])));
                     variants.push(("x3".into(), json!([v.clone(), v.clone(), v.clone()])));
                     for pos in [1usize, 2] {
@@ -533,10 +552,21 @@ pub fn run(o: &Opts) -> Report {
                         cases.push((d.join("; "), jj));
                     }
                 }
-                cases.extend(singles);
+                cases.extend(singles.clone());
                 cases.extend(charge_mutants(code, &j));
                 cases.extend(sum_mutants(code, &j));
-                cases.extend(absent_member_mutants(code, &j, &shapes));
+                let absent = absent_member_mutants(code, &j, &shapes);
+                // a repeatable member present but empty, together with every code-word alternative of the message (rules of the
+                // form "code X requires / forbids field Y" decide on presence: `Some(vec![])` is where "present" and
+                // "has an occurrence" part ways)
+                for (d1, m1) in absent.iter().filter(|(d, _)| d.ends_with(" x0")).chain(singles.iter().filter(|(d, _)| d.starts_with("empty-array"))) {
+                    for (d2, m2) in single_mutants(m1) {
+                        if d2.starts_with("set ") && (d2.contains("/code = ") || d2.contains("instruction_code = ")) {
+                            cases.push((format!("{d1}; {d2}"), m2));
+                        }
+                    }
+                }
+                cases.extend(absent);
                 for (desc, jj) in cases {
                     rep.tally(&format!("mutation:{}", desc.split(' ').next().unwrap_or("")));
                     if desc.starts_with("add-absent") { rep.tally(&format!("add-absent:MT{code}")); }
